@@ -257,3 +257,13 @@ def run(ctx):
         "'no reply' is decided by a quiet period (0.35 s quick, 1 s thorough) on a socket with one outstanding datagram",
         "the class of each datagram is fixed by construction in the driver (Bep15.tla / C13 covers the byte-level classes)",
     ]
+    if not ctx.quick():
+        # growth beyond the listed properties: the bundled load tester as a BEP 15 client
+        # (spec/UdpLoadClient.tla); informational, never a verdict on C06
+        try:
+            import ext_loadtest
+            ext = ext_loadtest.loadtest_extension(ctx)
+        except Exception as e:
+            ext = {"skipped": "extension failed: %r" % (e,)}
+        ctx.coverage.setdefault("extensions", {})["UdpLoadClient"] = ext
+        log("EXTENSION UdpLoadClient (not a verdict on C06): %s" % json.dumps(ext)[:600])
